@@ -737,18 +737,20 @@ def r7_11(ctx):
             return flat(e.left) + flat(e.right)
         return [e]
 
+    # the local that holds the subtype: defined from get_content_subtype()
+    sub_vars = {s_.targets[0].id for s_ in body_walk(fi.node) if isinstance(s_, ast.Assign) and len(s_.targets) == 1 and isinstance(s_.targets[0], ast.Name) and any(call_name(c) == "get_content_subtype" for c in calls_in(s_.value))}
     chains = []
     for n in body_walk(fi.node):
         if isinstance(n, ast.BinOp) and isinstance(n.op, ast.Add):
             parts = flat(n)
-            if any(isinstance(x, ast.Name) and x.id == "subtype" for x in parts) and any("sub_parts" in norm(x) for x in parts):
+            if any(isinstance(x, ast.Name) and x.id in sub_vars for x in parts) and any(isinstance(x, ast.Call) and call_name(x) == "join" for x in parts):
                 if not any(n is not m and isinstance(m, ast.BinOp) and n in ast.walk(m) for m in [c for c, _ in chains]):
                     chains.append((n, parts))
     # keep outermost chains only
     outer = [(n, ps) for n, ps in chains if not any(n is not m and any(x is n for x in ast.walk(m)) for m, _ in chains)]
     ctx.floor("R7.11", len(outer), 2, "multipart body structure forms")
     for n, parts in outer:
-        i = next(k for k, x in enumerate(parts) if isinstance(x, ast.Name) and x.id == "subtype")
+        i = next(k for k, x in enumerate(parts) if isinstance(x, ast.Name) and x.id in sub_vars)
         before = parts[i - 1] if i else None
         if isinstance(before, ast.Constant) and before.value in (b' "', ' "'):
             ctx.ok("R7.11", where(fi), f"multipart form @{n.lineno}: parts SP DQUOTE subtype")
